@@ -490,10 +490,10 @@ pub fn run(tier: Tier) -> i32 {
     report.assume("order among mutually incomparable elements is unspecified: only 'no failure' and 'permutation' are demanded there");
     let ctx = Ctx { report: &report, parser: cfgs::parser(Config::Stdlib), nontriv: AtomicU64::new(0) };
     let t = tier.thorough();
-    scalar_arrays(&ctx, &[V::Int(1), V::Int(2), V::Int(3), V::Nil], "{1,2,3,nil}", if t { 6 } else { 5 });
-    scalar_arrays(&ctx, &[V::s("a"), V::s("A"), V::s("b"), V::s("B"), V::Nil], "{a,A,b,B,nil}", 5);
-    mixed_equal_arrays(&ctx, if t { 5 } else { 4 });
-    object_arrays(&ctx, if t { 5 } else { 4 });
+    scalar_arrays(&ctx, &[V::Int(1), V::Int(2), V::Int(3), V::Nil], "{1,2,3,nil}", if t { 8 } else { 5 });
+    scalar_arrays(&ctx, &[V::s("a"), V::s("A"), V::s("b"), V::s("B"), V::Nil], "{a,A,b,B,nil}", if t { 7 } else { 5 });
+    mixed_equal_arrays(&ctx, if t { 6 } else { 4 });
+    object_arrays(&ctx, if t { 6 } else { 4 });
     if t {
         long_arrays(&ctx, &[21, 24, 32, 33, 40, 48, 64]);
     } else {
